@@ -31,7 +31,7 @@ import traceback
 VERIF = os.path.dirname(os.path.dirname(os.path.abspath(__file__)))
 REPO = os.environ.get("ODML_REPO", "/repo")
 LEAN = os.path.join(VERIF, "lean")
-DRIVER = os.path.join(LEAN, ".lake", "build", "bin", "odml_driver")
+BIN = os.path.join(LEAN, ".lake", "build", "bin")
 EVIDENCE = os.path.join(VERIF, "evidence")
 REPLAYS = os.path.join(VERIF, "out", "replays")
 ALLOWED_AXIOMS = {"propext", "Classical.choice", "Quot.sound"}
@@ -127,15 +127,16 @@ def audit(prop, obligations):
 class Model(object):
     """Batch access to the compiled Lean driver."""
 
-    def __init__(self):
-        if not os.path.exists(DRIVER):
-            raise Infra("driver not built: %s" % DRIVER)
+    def __init__(self, prop):
+        self.exe = os.path.join(BIN, "drv_" + prop.lower())
+        if not os.path.exists(self.exe):
+            raise Infra("driver not built: %s" % self.exe)
 
     def ask(self, requests):
         if not requests:
             return []
         data = "\n".join(json.dumps(r, ensure_ascii=True) for r in requests) + "\n"
-        proc = subprocess.run([DRIVER], input=data.encode("utf-8"), stdout=subprocess.PIPE,
+        proc = subprocess.run([self.exe], input=data.encode("utf-8"), stdout=subprocess.PIPE,
                               stderr=subprocess.PIPE, timeout=3000)
         if proc.returncode != 0:
             raise Infra("driver exited %s: %s" % (proc.returncode, proc.stderr[-500:]))
@@ -261,13 +262,20 @@ def _worker_run(case):
 
 
 def load_known_findings(prop):
-    path = os.path.join(VERIF, "known_findings.json")
-    if not os.path.exists(path):
-        return []
-    with io.open(path, encoding="utf-8") as fh:
-        data = json.load(fh)
-    return [f for f in data.get("findings", []) if f.get("property") == prop
-            and f.get("status") == "open"]
+    """Open findings of the property from known_findings.json and known_findings.d/*.json."""
+    paths = [os.path.join(VERIF, "known_findings.json")]
+    extra = os.path.join(VERIF, "known_findings.d")
+    if os.path.isdir(extra):
+        paths += [os.path.join(extra, n) for n in sorted(os.listdir(extra)) if n.endswith(".json")]
+    out = []
+    for path in paths:
+        if not os.path.exists(path):
+            continue
+        with io.open(path, encoding="utf-8") as fh:
+            data = json.load(fh)
+        out += [f for f in data.get("findings", []) if f.get("property") == prop
+                and f.get("status") == "open"]
+    return out
 
 
 def write_replay(prop, name, payload):
@@ -302,7 +310,7 @@ def main(check, argv):
         notes.append("table extraction failed: %s" % table_info["error"])
 
     # 2./3. build + audit
-    ok, log = lake_build(list(check.lean_targets) + ["odml_driver"])
+    ok, log = lake_build(list(check.lean_targets) + ["drv_" + prop.lower()])
     proof_problems = []
     discharged = []
     if not ok:
@@ -337,7 +345,7 @@ def main(check, argv):
     validated = 0
     if model_ok:
         try:
-            model = Model()
+            model = Model(prop)
             reqs = []
             spans = []
             for case, (obs, _f) in zip(cases, results):
@@ -489,8 +497,8 @@ def replay(check, path):
     print("implementation: %s" % json.dumps(obs, default=repr)[:2000])
     dis = []
     try:
-        lake_build(list(check.lean_targets) + ["odml_driver"])
-        answers = Model().ask(check.model_requests(case, obs))
+        lake_build(list(check.lean_targets) + ["drv_" + check.prop.lower()])
+        answers = Model(check.prop).ask(check.model_requests(case, obs))
         dis = check.compare(case, obs, answers)
         print("model: %s" % json.dumps(answers)[:2000])
     except Exception as exc:
